@@ -276,7 +276,7 @@ def with_timeout(fn, seconds=TIMEOUT_CPU_S):
     """Run fn under a limit on the *CPU time* of this process (robust against a loaded machine)."""
     warm_up()
     old = signal.signal(signal.SIGVTALRM, _alarm)
-    signal.setitimer(signal.ITIMER_VIRTUAL, seconds)
+    signal.setitimer(signal.ITIMER_VIRTUAL, seconds, 0.5)      # repeats: a handler that swallows the exception cannot stop it
     try:
         return fn()
     finally:
@@ -297,7 +297,10 @@ def run_reference(tree, pop_name, max_steps=600, params=None):
     sch = schema()
     w = populate_ref(sch, population(pop_name))
     m = R.Machine(w, max_steps=max_steps)
-    result = m.run_body(tree, params)
+    try:
+        result = with_timeout(lambda: m.run_body(tree, params), 10.0)
+    except Timeout:
+        raise R.OutOfDomain('reference evaluation exceeds its time budget')
     return result, R.snapshot(w), m
 
 
